@@ -197,6 +197,26 @@ impl Blob
         );
     }
 
+    /*  Once ruler itself has put another file at a path (recovered from cache or downloaded),
+        what was remembered about the file that used to be there says nothing about the new one,
+        even if the two happen to carry the same modified date.  Forget it. */
+    pub fn forget_replaced_file_states
+    (
+        self : &mut Self,
+        resolutions : &Vec<FileResolution>
+    )
+    {
+        for (target_info, resolution) in self.file_infos.iter_mut().zip(resolutions.iter())
+        {
+            match resolution
+            {
+                FileResolution::Recovered | FileResolution::Downloaded =>
+                    target_info.file_state = FileState::empty(),
+                _ => {},
+            }
+        }
+    }
+
     pub fn get_file_infos
     (
         self : &Self
